@@ -1,10 +1,200 @@
 (* C17 — State machines run their declared transitions to the terminal state.
-   Property theorems only; proofs live in Proofs/FsmP.v. *)
+   Property theorems only; proofs live in Proofs/FsmP.v, the model in Model/Fsm.v.
+
+   Reading guide.  [run_fsm max d args] is the model of invoking machine [d]:
+     RReject why   - rejected before any state is visited (argument count / kind, undefined state)
+     RRun tr o     - the list of visits (state, arm and guard that fired) and how the run ended:
+                     ODone v (an output arm returned v), OLimit st (stopped by the transition limit),
+                     OStuck (no arm applies), OErr (an expression failed, e.g. u64 overflow).
+   [fires e st arms i gi e' t] is the DECLARATIVE reading of "the first transition whose guard
+   holds": arm i matches state st, every earlier arm is passed over (pattern mismatch, or a guard
+   arm all of whose guards are false), and gi is the first guard of arm i that is true. *)
+From Coq Require Import String.
 From Coq Require Import List Arith ZArith.
-From Coq Require String.
 From MechV Require Import Base.Sexp Base.Obs Model.Fsm Proofs.FsmP.
 Import ListNotations.
+Open Scope string_scope.
+Open Scope list_scope.
 
-Theorem C17_never_hangs_run : forall (arms : list arm) fuel e st, List.length (fst (run arms fuel e st)) <= fuel.
-Proof. exact run_length. Qed.
-Print Assumptions C17_never_hangs_run.
+(* 1. The executable choice of a transition is exactly "the first arm/guard that is enabled". *)
+Theorem C17_select_is_first_enabled : forall e st arms i gi e' t,
+  select e st arms 0 = Sel i gi e' t <-> fires e st arms i gi e' t.
+Proof. exact select_fires_iff. Qed.
+Print Assumptions C17_select_is_first_enabled.
+
+Theorem C17_halts_iff_no_arm_enabled : forall e st arms,
+  select e st arms 0 = SelNone <-> Forall (arm_skipped e st) arms.
+Proof. exact select_none_iff. Qed.
+Print Assumptions C17_halts_iff_no_arm_enabled.
+
+(* 2. The run loop computes the run the declaration determines (relation [Run]), for every fuel. *)
+Theorem C17_run_is_declared_run : forall arms n e st tr o,
+  run arms n e st = (tr, o) <-> Run arms n e st tr o.
+Proof. exact run_iff_Run. Qed.
+Print Assumptions C17_run_is_declared_run.
+
+Theorem C17_deterministic : forall arms n e st tr o tr' o',
+  Run arms n e st tr o -> Run arms n e st tr' o' -> tr = tr' /\ o = o'.
+Proof. exact Run_deterministic. Qed.
+Print Assumptions C17_deterministic.
+
+(* 3. trace_is_first_enabled: every consecutive pair of visited states is connected by the first
+      transition of the current state whose pattern matches and whose guard holds. *)
+Theorem C17_trace_is_first_enabled : forall max d args tr o,
+  run_fsm max d args = RRun tr o ->
+  forall k v1 v2, nth_error tr k = Some v1 -> nth_error tr (S k) = Some v2 -> step_ok (d_arms d) v1 v2.
+Proof. exact run_fsm_trace_first_enabled. Qed.
+Print Assumptions C17_trace_is_first_enabled.
+
+(* 4. starts_at_start: the first visit is the declared start state with the payload computed from the arguments. *)
+Theorem C17_starts_at_start : forall max d args tr o,
+  run_fsm max d args = RRun tr o ->
+  exists vals vs,
+    map_opt arg_value args = Some vals /\
+    eval_list (bind_inputs [] (map fst (d_inputs d)) vals) (snd (d_start d)) = Ok vs /\
+    (forall v rest, tr = v :: rest -> v_state v = (fst (d_start d), vs)) /\
+    (tr = [] -> max = 0).
+Proof. exact run_fsm_starts_at_start. Qed.
+Print Assumptions C17_starts_at_start.
+
+(* 5. ends_at_output_arm: a returned value is the value of an output arm that fired (as the first
+      enabled one) in the last visited state. *)
+Theorem C17_ends_at_output_arm : forall max d args tr v,
+  run_fsm max d args = RRun tr (ODone v) ->
+  exists pre lv e1 e2 i gi x,
+    tr = pre ++ [lv] /\ fires e1 (v_state lv) (d_arms d) i gi e2 (TOut x) /\ eval e2 x = Ok v /\
+    v_arm lv = Some (i, gi).
+Proof. exact run_fsm_ends_at_output. Qed.
+Print Assumptions C17_ends_at_output_arm.
+
+(* 6. output_kind: a machine that respects its declared payload/output kinds returns a value of the declared output kind. *)
+Theorem C17_output_kind : forall max d args tr v out,
+  wt_decl d = true -> out_ty d = Some out ->
+  run_fsm max d args = RRun tr (ODone v) -> has_ty v out = true.
+Proof. exact output_kind. Qed.
+Print Assumptions C17_output_kind.
+
+(* 7. never_hangs / limit_stops: [run_fsm] is a total function; it makes at most max_steps visits; a run that
+      needs more than max_steps iterations is cut off with the limit outcome after exactly max_steps of them;
+      a run that ends by itself is not affected by a larger limit. *)
+Theorem C17_never_hangs : forall max d args tr o,
+  run_fsm max d args = RRun tr o -> List.length tr <= max.
+Proof. exact run_fsm_never_hangs. Qed.
+Print Assumptions C17_never_hangs.
+
+Theorem C17_limit_stops : forall n d args tr o max,
+  run_fsm n d args = RRun tr o -> max < List.length tr ->
+  exists st, run_fsm max d args = RRun (firstn max tr) (OLimit st).
+Proof. exact run_fsm_limit_stops. Qed.
+Print Assumptions C17_limit_stops.
+
+Theorem C17_limit_exact : forall max d args tr st,
+  run_fsm max d args = RRun tr (OLimit st) -> List.length tr = max.
+Proof. exact run_fsm_limit_exact. Qed.
+Print Assumptions C17_limit_exact.
+
+Theorem C17_larger_limit_same_run : forall n d args tr o m,
+  run_fsm n d args = RRun tr o -> (forall st, o <> OLimit st) -> n <= m -> run_fsm m d args = RRun tr o.
+Proof. exact run_fsm_fuel_stable. Qed.
+Print Assumptions C17_larger_limit_same_run.
+
+(* 8. ill_formed_rejected.  [ill_formed] is the PROPERTY's notion (a transition or the start names a state
+      that is not declared, or a declared state has no arm; declared = listed in the specification).
+      C17_holds: outside the two known-finding classes an ill-formed declaration never runs, and is
+      rejected as soon as the arguments are acceptable; wrong arguments are always rejected;
+      and the code rejects nothing that is well-formed. *)
+Theorem C17_holds : forall max d args,
+  ill_formed d = true -> kf_undeclared_with_arm d = false -> kf_armless_unreferenced d = false ->
+  forall tr o, run_fsm max d args <> RRun tr o.
+Proof. exact ill_formed_never_runs. Qed.
+Print Assumptions C17_holds.
+
+Theorem C17_ill_formed_rejected : forall max d args vals vs,
+  ill_formed d = true -> kf_undeclared_with_arm d = false -> kf_armless_unreferenced d = false ->
+  args_wrong d args = false -> map_opt arg_value args = Some vals ->
+  eval_list (bind_inputs [] (map fst (d_inputs d)) vals) (snd (d_start d)) = Ok vs ->
+  run_fsm max d args = RReject RjState.
+Proof. exact ill_formed_rejected. Qed.
+Print Assumptions C17_ill_formed_rejected.
+
+Theorem C17_wrong_args_rejected : forall max d args,
+  args_wrong d args = true -> exists w, run_fsm max d args = RReject w.
+Proof. exact wrong_args_rejected. Qed.
+Print Assumptions C17_wrong_args_rejected.
+
+Theorem C17_rejection_only_if_ill_formed : forall d, validate d = false -> ill_formed d = true.
+Proof. exact validate_false_ill_formed. Qed.
+Print Assumptions C17_rejection_only_if_ill_formed.
+
+(* 9. The faithful model VIOLATES the property on two classes (the code never consults the
+      specification's state list): witnesses. *)
+Theorem C17_refuted_undeclared_state_with_arm :
+  exists d args max tr v,
+    ill_formed d = true /\ kf_undeclared_with_arm d = true /\ run_fsm max d args = RRun tr (ODone v).
+Proof.
+  destruct kf1_refutes as (H1 & H2 & tr & H3).
+  exact (ex_intro _ kf1_witness (ex_intro _ _ (ex_intro _ _ (ex_intro _ tr (ex_intro _ _ (conj H1 (conj H2 H3))))))).
+Qed.
+Print Assumptions C17_refuted_undeclared_state_with_arm.
+
+Theorem C17_refuted_declared_state_without_arm :
+  exists d args max tr v,
+    ill_formed d = true /\ kf_armless_unreferenced d = true /\ run_fsm max d args = RRun tr (ODone v).
+Proof.
+  destruct kf2_refutes as (H1 & H2 & tr & H3).
+  exact (ex_intro _ kf2_witness (ex_intro _ _ (ex_intro _ _ (ex_intro _ tr (ex_intro _ _ (conj H1 (conj H2 H3))))))).
+Qed.
+Print Assumptions C17_refuted_declared_state_without_arm.
+
+(* 10. The judge applied to the implementation's observation is sound for the property, and a
+       known-finding verdict is only given inside a class for exactly the modelled behaviour. *)
+Theorem C17_judge_sound : forall (c : case) (ob : fobs) (tag : String.string),
+  judge_case c ob = v_ok tag -> C17_spec c ob.
+Proof. exact judge_case_sound. Qed.
+Print Assumptions C17_judge_sound.
+
+Theorem C17_judge_kf : forall (c : case) (ob : fobs) (id : String.string),
+  judge_case c ob = v_kf id ->
+  ill_formed (c_decl c) = true /\
+  (kf_undeclared_with_arm (c_decl c) = true \/ kf_armless_unreferenced (c_decl c) = true) /\
+  exists tr o, run_fsm (c_max c) (c_decl c) (c_args c) = RRun tr o /\ run_matchb tr o ob = true.
+Proof. exact judge_case_kf. Qed.
+Print Assumptions C17_judge_kf.
+
+(* non-vacuity: the documented counter (full trace), the limit hit exactly, two guards true at once,
+   an array-pattern machine, rejections, and a machine that never terminates (all limits, all n <= 100). *)
+Example C17_example_counter :
+  wt_decl counter = true /\ ill_formed counter = false /\
+  run_fsm 40 counter [AS "u64" 2] =
+    RRun [ Visit ("Count", [VNum 2]) (Some (0, Some 0));
+           Visit ("Count", [VNum 1]) (Some (0, Some 0));
+           Visit ("Count", [VNum 0]) (Some (0, Some 1));
+           Visit ("Done", [VNum 0]) (Some (1, None)) ] (ODone (VNum 0)).
+Proof. exact counter_example. Qed.
+Print Assumptions C17_example_counter.
+
+Example C17_example_two_guards_true :
+  (exists tr, run_fsm 40 (overlap false) [AS "u64" 5] = RRun tr (ODone (VNum 105))) /\
+  (exists tr, run_fsm 40 (overlap true) [AS "u64" 5] = RRun tr (ODone (VNum 205))).
+Proof. exact overlap_example. Qed.
+Print Assumptions C17_example_two_guards_true.
+
+Example C17_example_array_pattern :
+  wt_decl vsum = true /\
+  exists tr, run_fsm 40 vsum [AM "u64" 1 3 [5; 3; 8]%Z] = RRun tr (ODone (VNum 16)) /\ List.length tr = 5.
+Proof. exact vsum_example. Qed.
+Print Assumptions C17_example_array_pattern.
+
+Example C17_example_rejections :
+  run_fsm 40 bad_target [AS "u64" 1] = RReject RjState /\
+  run_fsm 40 counter [AS "f64" 3] = RReject RjArgKind /\
+  run_fsm 40 counter [AS "u8" 3] = RReject RjArgKind /\
+  run_fsm 40 vsum [AS "u64" 3] = RReject RjArgKind /\
+  run_fsm 40 counter [] = RReject RjArgCount.
+Proof. exact rejected_examples. Qed.
+Print Assumptions C17_example_rejections.
+
+Example C17_example_non_terminating : forall n max, (0 <= n <= 100)%Z ->
+  exists tr st, run_fsm max spin [AS "u64" n] = RRun tr (OLimit st) /\ List.length tr = max.
+Proof. exact spin_stopped. Qed.
+Print Assumptions C17_example_non_terminating.
